@@ -96,7 +96,7 @@ def run_case(seed):
     def count(k):
         dist[k] = dist.get(k, 0) + 1
 
-    pf = gen.gen_plotfile(rng, max_blocks=2, payload=rng.choice(['ints', 'random', 'special']),
+    pf = gen.gen_plotfile(rng, max_blocks=2, payload=rng.choice(['ints', 'random', 'special']), unicode_names=0.2,
                           nfields=rng.choice([(1, 9), (1, 9), (10, 13)]))   # 10+ fields: the count changes its number of digits
     r3 = random.Random(seed * 523 + 7)
     if r3.random() < 0.3:
@@ -104,6 +104,12 @@ def run_case(seed):
         nm = r3.choice(['mixture fraction', 'D(H2,N2)', 'progress variable', 'a, b'])
         if nm not in pf.fields:
             pf.fields[r3.randrange(len(pf.fields))] = nm
+    rq = random.Random(seed * 6131 + 7)
+    if pf.nlevels >= 2 and rq.random() < 0.2:
+        # refinement ratios other than 2 / differing between levels (colander copies the mesh)
+        pf.ratios = (rq.choice([[4], [2, 4], [4, 2], [4, 4]]) + [2, 4])[:pf.nlevels - 1]
+        pf.meta['ratios'] = list(pf.ratios)
+    count(f"refinement ratios={pf.meta.get('ratios', 'all 2')}")
     keys = c01.reader_keys(pf.fields)
     img = diskimg.image_of(pf)
     path = core.scratch_dir(f"c05_{seed}")
@@ -119,6 +125,7 @@ def run_case(seed):
              [[c02.lvboxes_sx(pf, lv), gen.level_to_sx(pf, lv), c02.cellh_sx(pf, lv)[3], c02.cellh_sx(pf, lv)[4]]
               for lv in range(pf.nlevels)]]
     count(f"ndims={pf.ndims}")
+    count(f"non-ASCII field names={'names:unicode' in pf.meta['geo']}")
     count(f"levels={pf.nlevels}")
     for lk in pf.meta['layouts']:
         count(f"layout={lk}")
@@ -157,7 +164,7 @@ def run_case(seed):
                     sys.argv = old_argv
             res = core.outcome(run_cli)
         else:
-            res = core.outcome(lambda: Colander(plotfile=path, limit_level=limit_arg, output=outp, variables=list(variables)).strain())
+            res = core.outcome(lambda: core.kept_alive(Colander(plotfile=path, limit_level=limit_arg, output=outp, variables=list(variables))).strain())
         core.set_policy('identity', 0)
         out['evals'] += 1
         desc = dict(seed=seed, variables=variables, limit_level=limit_arg, meta=pf.meta, fields=keys)
@@ -213,6 +220,27 @@ def run_case(seed):
             elif not tc.model_taste(model, m, None, (True, True, False, False)):
                 out['disagreements'].append(dict(desc, kind='model-taste', what='Taste.taste_good rejects the model output',
                                                  correspondence='Taste.taste_good on Colander.colander output'))
+        # ---- a second strain INTO THE SAME, now existing, output directory: as many fields, other ones (or another order),
+        # same level limit - every file of the first run is replaced, nothing of it may survive
+        rr = random.Random(seed * 1013 + k)
+        if not bad and len(kept) >= 1 and len(keys) >= 2 and rr.random() < 0.4:
+            again = rr.sample(keys, min(len(kept), len(keys)))
+            if again != list(names):
+                out['evals'] += 1
+                count("second strain into the existing output directory")
+                res2 = core.outcome(lambda: core.kept_alive(Colander(plotfile=path, limit_level=limit_arg, output=outp, variables=list(again))).strain())
+                kept2, names2 = expected_contents(pf, keys, again, limit)
+                desc2 = dict(desc, variables=again, earlier_run_into_the_same_output=variables)
+                bad2 = None
+                if res2[0] != 'ok':
+                    bad2 = 'straining into an existing output directory raised: ' + res2[1]
+                else:
+                    try:
+                        bad2 = check_contents(oracle.contents_of_image(oracle.read_image(outp)), pf, keys, kept2, names2, limit)
+                    except (ValueError, IndexError, KeyError) as e:
+                        bad2 = f'output is not a well-formed plotfile: {e}'
+                if bad2:
+                    out['violations'].append(dict(desc2, kind='wrong-output', what='second run into the same output directory: ' + bad2))
     return out
 
 
